@@ -823,15 +823,19 @@ class TLSConnection(TLSRecordLayer):
 
         groups = []
         # Send the ECC extensions only if we advertise ECC ciphers
+        # (in TLS 1.3 the groups are used with every cipher suite)
         if next((cipher for cipher in cipherSuites \
                 if cipher in CipherSuite.ecdhAllSuites), None) is not None:
             groups.extend(self._curveNamesToList(settings))
             if settings.ec_point_formats:
                 extensions.append(ECPointFormatsExtension().\
                                 create(settings.ec_point_formats))
+        elif shares is not None:
+            groups.extend(self._curveNamesToList(settings))
         # Advertise FFDHE groups if we have DHE ciphers
         if next((cipher for cipher in cipherSuites
-                 if cipher in CipherSuite.dhAllSuites), None) is not None:
+                 if cipher in CipherSuite.dhAllSuites), None) is not None \
+                or shares is not None:
             groups.extend(self._groupNamesToList(settings))
         # Send the extension only if it will be non empty
         if groups:
